@@ -482,6 +482,58 @@ def p3(ctx):
     return obs
 
 
+_SAME_DIR = {"str", "fspath", "fsdecode", "fsencode", "abspath", "normpath", "realpath", "expanduser"}
+_OTHER_DIR = {"dirname": "the parent directory", "split": "a component of the path", "basename": "the last component only",
+              "commonpath": "a common ancestor", "getcwd": "the working directory"}
+
+
+def _same_directory(ctx, fi, call, arg):
+    """"" when *arg* is a parameter of the function, unchanged (or through an identity-like wrapper); a description when it is
+    visibly another directory; None when the argument is not derived from a parameter at all (repositories created for other
+    purposes); AnalysisError for a transformation that is not modelled."""
+    from ..dataflow import DefUse, origins
+    cfg = ctx.cfg(fi)
+    du = DefUse(cfg)
+    node = next((n for n in cfg.stmt_nodes() if any(c is call for c in n.calls())), None)
+    if node is None:
+        return None
+    verdicts = []
+
+    def walk(n, e, depth=0):
+        for o in origins(du, n, e):
+            if o.kind == "param":
+                verdicts.append("")
+                continue
+            leaf = o.leaf
+            if o.kind == "expr" and isinstance(leaf, ast.Call):
+                last = (dotted(leaf.func) or "").split(".")[-1]
+                if last in _SAME_DIR and leaf.args and depth < 6:
+                    walk(o.node or n, leaf.args[0], depth + 1)
+                    continue
+                if last in _OTHER_DIR:
+                    verdicts.append(_OTHER_DIR[last])
+                    continue
+                if last == "join" and leaf.args and all(isinstance(a, ast.Constant) and a.value in ("", ".") for a in leaf.args[1:]) and depth < 6:
+                    walk(o.node or n, leaf.args[0], depth + 1)
+                    continue
+                if last == "join" and any(isinstance(a, ast.Constant) and isinstance(a.value, str) and ".." in a.value.split("/") for a in leaf.args[1:]):
+                    verdicts.append("a directory above it")
+                    continue
+            if o.kind == "expr" and isinstance(leaf, ast.Attribute) and leaf.attr == "parent":
+                verdicts.append("the parent directory")
+                continue
+            verdicts.append(None)
+
+    walk(node, arg)
+    if any(v for v in verdicts):
+        return next(v for v in verdicts if v)
+    if verdicts and all(v == "" for v in verdicts):
+        return ""
+    if any(v == "" for v in verdicts):
+        raise AnalysisError("%s: `%s` mixes the mapped path with a value that is not modelled" % (fi.qualname, src(arg)[:60]))
+    return None
+
+
 @rule("C13", "P4", floor=2, kind="S",
       desc="a store is opened at exactly the directory that was mapped from the request: no upward search for an "
            "enclosing repository (Repo.discover) - a data directory inside some work tree would serve that tree")
@@ -500,6 +552,13 @@ def p4(ctx):
                 if last in ("Repo", "init", "init_bare") and ("repo" in d.lower() or last == "Repo"):
                     n += 1
                     obs.append(ctx.ok(fi.qualname, "%s:%d" % (fi.module.rel, c.lineno), "repository opened by path: %s" % last, "`%s`" % src(c)[:60]))
+                    if mname == "xandikos.store.git" and c.args:
+                        verdict = _same_directory(ctx, fi, c, c.args[0])
+                        if verdict is not None:
+                            obs.append(ctx.ob(verdict == "", fi.qualname, "%s:%d" % (fi.module.rel, c.lineno), "repository path is the path the caller mapped",
+                                              "`%s`" % src(c.args[0])[:60],
+                                              "`%s` opens %s instead of the directory the request was mapped to: the collection at one path is served "
+                                              "from (and written to) the repository of another" % (src(c)[:70], verdict)))
                 if last in ("discover", "find_root", "controldir_from_path") or (last == "Repo" and any(k.arg == "search_parent_directories" for k in c.keywords)):
                     obs.append(ctx.bad(fi.qualname, "%s:%d" % (fi.module.rel, c.lineno), "no upward repository search",
                                        "`%s` searches the parent directories for a repository: a request path that names a plain directory below "
